@@ -91,7 +91,7 @@ func ConnectWithConfig(c *ConnConfig) (*Conn, error) {
 	}
 
 	if c.sentStorage == nil {
-		c.sentStorage = newInmemSentStorageNoPayload()
+		c.sentStorage = newInmemSentStorage()
 	}
 
 	if c.upstreamRepository == nil {
